@@ -299,6 +299,7 @@ class World:
         self.faulted = False
         self.susp = susp if mode == "a" else 0
         self.fn_susp = (self.susp if fn_susp is None else fn_susp) if mode == "a" else 0
+        self.close_susp = 0  # suspensions inside a source's aclose() (asyncstdlib side only)
         self.srcs = []
         self.ntok = 0
         self.pending = []
@@ -422,6 +423,7 @@ class SrcState:
         self.overlap = False
         self.untracked = False
         self.started = False
+        self.closing = False
         self.obj = None
         self.pull_after_close = False
 
@@ -503,6 +505,12 @@ async def _agen_source(st):
             del it
     finally:
         if not st.ended:
+            if w.close_susp and not st.closing:
+                # a close that has to suspend (e.g. network shutdown): cannot complete when the
+                # generator is merely garbage collected
+                st.closing = True
+                for _ in range(w.close_susp):
+                    await Suspend(w)
             st.closed += 1
             w.log.append(("close", st.sid))
 
@@ -544,6 +552,8 @@ class AsyncClsSource(AsyncBareSource):
 
     async def aclose(self):
         st = self.st
+        for _ in range(st.world.close_susp):
+            await Suspend(st.world)
         if not st.closed and not st.ended:
             st.world.log.append(("close", st.sid))
         st.closed += 1
